@@ -505,7 +505,9 @@ PROPS = {
               # values of 2.2 .. 3.2 MiB (larger than the memtable, than a file, than any
               # internal size limit), frequent reopens: such a value is often still in the log
               dict(driver="hist", args=["--nops", "40", "--per-file", "4", "--giant-values",
-                                        "--reopen-bias", "1"], quick=8, thorough=200)]),
+                                        "--reopen-bias", "1"], quick=8, thorough=200),
+              dict(driver="hist", args=["--nops", "40", "--per-file", "6", "--profile", "straddle",
+                                        "--compact-bias", "1"], quick=6, thorough=150)]),
     "C03": dict(
         design=[(CORE, [Q1], ["MC_RainCore_small.cfg", "MC_RainCore_pins.cfg"])],
         switches=[("Bug_DropAboveSnapshot", CORE, Q1, "ReadCorrect"),
